@@ -17,7 +17,11 @@ From Pygls Require Export Base.AssocOut.
 Import ListNotations.
 
 (* ---- message ids: a JSON int, a JSON string, or the n-th uuid4 string of the supply ---- *)
-Inductive id := IInt (z : Z) | IStr (s : list N) | IUuid (n : N).
+Inductive id :=
+  | IInt (z : Z) | IStr (s : list N) | IUuid (n : N)
+  | INull                (* JSON null: what a peer echoes when it could not detect the id of a request *)
+  | IOdd (n : N).        (* any other JSON value a peer may put there that equals no issued id: a number
+                            that is not an integer, a list, an object (not even hashable), ... *)
 
 Fixpoint str_eqb (a b : list N) : bool :=
   match a, b with
@@ -33,6 +37,8 @@ Definition id_eqb (a b : id) : bool :=
   | IInt x, IInt y => Z.eqb x y
   | IStr x, IStr y => str_eqb x y
   | IUuid x, IUuid y => N.eqb x y
+  | INull, INull => true
+  | IOdd x, IOdd y => N.eqb x y
   | _, _ => false
   end.
 
